@@ -8,7 +8,7 @@ set -u
 PATCH="$1"; [ "$PATCH" != "-" ] && PATCH="$(readlink -f "$PATCH")"; PID="$2"; MODE="$3"; shift 3
 FILE=""; if [ "$MODE" = "--replay" ]; then FILE="$1"; shift; fi
 REV="${1:-HEAD}"
-EVW=/tmp/evalws
+EVW=/tmp/evalws${EVW_NAME:+-$EVW_NAME}
 mkdir -p $EVW
 git -C /repo worktree prune
 if [ ! -d $EVW/repo/.git ] && [ ! -f $EVW/repo/.git ]; then git -C /repo worktree add --detach $EVW/repo HEAD >/dev/null 2>&1 || exit 2; fi
